@@ -341,69 +341,81 @@ theorem C20_machine_changed (r : Resolved) (inits : List Fields) (log : Log)
 
 /-! ### a mark is reset only by a transition that is taken -/
 
-/-- a transition whose conditions hold but whose far frame refuses entry (`let me if …` false) is passed
-over exactly like one whose conditions fail: the next transition of the frame is tried -/
-theorem C20_refused_transition_skipped (w : World) (frames : List Frame) (t : Trans) (ts : List Trans)
-    (hrefused : enterOk w frames t.far = false) :
-    firstTrans w frames (t :: ts) = firstTrans w frames ts := by
-  simp [firstTrans, hrefused]
+/-- a transition whose conditions hold but whose frames-to-enter refuse entry (`let me if …` false in
+one of them) is passed over exactly like one whose conditions fail: the next transition is tried -/
+theorem C20_refused_transition_skipped (w : World) (frames : List Frame) (actives : List Nat) (t : Trans)
+    (ts : List Trans)
+    (hrefused : enterOk w frames (exen actives (outline frames t.far) t.far).2 = false) :
+    firstTrans w frames actives (t :: ts) = firstTrans w frames actives ts := by
+  simp [firstTrans, admits, hrefused]
 
-/-- the transition that is taken has its conditions true and its far frame admits entry -/
-theorem C20_taken_transition_admitted (w : World) (frames : List Frame) (ts : List Trans) (t : Trans)
-    (h : firstTrans w frames ts = some t) :
-    t ∈ ts ∧ evalNeeds w t.needs = true ∧ enterOk w frames t.far = true := by
+/-- the transition that is taken has its conditions true and every frame it enters admits entry -/
+theorem C20_taken_transition_admitted (w : World) (frames : List Frame) (actives : List Nat)
+    (ts : List Trans) (t : Trans) (h : firstTrans w frames actives ts = some t) :
+    t ∈ ts ∧ evalNeeds w t.needs = true ∧
+      enterOk w frames (exen actives (outline frames t.far) t.far).2 = true := by
   induction ts with
   | nil => simp [firstTrans] at h
   | cons x xs ih =>
     simp only [firstTrans] at h
-    by_cases hc : (evalNeeds w x.needs && enterOk w frames x.far) = true
+    by_cases hc : admits w frames actives x = true
     · simp only [hc, if_true, Option.some.injEq] at h
       subst h
-      simp only [Bool.and_eq_true] at hc
+      simp only [admits, Bool.and_eq_true] at hc
       exact ⟨by simp, hc.1, hc.2⟩
     · simp only [hc] at h
       obtain ⟨a, b, c⟩ := ih h
       exact ⟨List.mem_cons_of_mem _ a, b, c⟩
 
+theorem applyActs_writes_marks (now : Nat) (ws : List Write) (w : World) :
+    (applyActs now w (ws.map Act.write)).marks = w.marks := by
+  induction ws generalizing w with
+  | nil => rfl
+  | cons x xs ih =>
+    simp only [List.map_cons, applyActs, List.foldl_cons]
+    have : (applyAct now w (Act.write x)).marks = w.marks := by cases x <;> rfl
+    rw [← this]
+    exact ih _
+
+theorem recurActs_writes (r : Resolved) (actives : List Nat) :
+    ∃ ws : List Write, recurActs r actives = ws.map Act.write := by
+  induction actives with
+  | nil => exact ⟨[], rfl⟩
+  | cons i rest ih =>
+    obtain ⟨ws, h⟩ := ih
+    refine ⟨((r.frames[i]?.map (·.recur)).getD []) ++ ws, ?_⟩
+    unfold recurActs at h ⊢
+    rw [List.flatMap_cons, h, List.map_append]
+
 /-- **A refused transition keeps the mark.**  In a tick in which the reader takes no transition — every
-transition of its frame has a false condition or a far frame that refuses entry — the reader runs its
-recur acts only: no marker act at all, so every Mark (stamp, used, snapshot) is what it was, and the
-reader stays where it is.  (With `C20_machine_updated`: a guarded condition that was true stays true
-until the transition is really taken or the named frame is entered.) -/
-theorem C20_refused_transition_keeps_mark (r : Resolved) (now : Nat) (s : RState) (near : Frame)
-    (hnear : r.frames[s.active]? = some near)
-    (hnone : firstTrans s.world r.frames near.trans = none) :
-    readerActs r false s = (near.recur.map Act.write, s.active, false) ∧
+transition of every frame of its active outline has a false condition or frames-to-enter that refuse
+entry — the reader runs the recur acts of its outline only: no marker act at all, so every Mark (stamp,
+used, snapshot) is what it was, and the reader stays where it is.  (With `C20_machine_updated`: a guarded
+condition that was true stays true until the transition is really taken or the named frame is entered.) -/
+theorem C20_refused_transition_keeps_mark (r : Resolved) (now : Nat) (s : RState)
+    (hnone : firstOfOutline s.world r.frames (outline r.frames s.active) (outline r.frames s.active) = none) :
+    readerActs r false s = (recurActs r (outline r.frames s.active), s.active, false) ∧
     (∀ a ∈ (readerActs r false s).1, ∀ tr m, a ≠ Act.marker tr m) ∧
     (applyActs now s.world (readerActs r false s).1).marks = s.world.marks := by
-  have h1 : readerActs r false s = (near.recur.map Act.write, s.active, false) := by
-    simp [readerActs, hnear, hnone]
+  have h1 : readerActs r false s = (recurActs r (outline r.frames s.active), s.active, false) := by
+    simp [readerActs, hnone]
+  obtain ⟨ws, hws⟩ := recurActs_writes r (outline r.frames s.active)
   refine ⟨h1, ?_, ?_⟩
-  · rw [h1]
+  · rw [h1, hws]
     intro a ha tr m
     simp only [List.mem_map] at ha
     obtain ⟨w, _, rfl⟩ := ha
     intro e; cases e
-  · rw [h1]
-    simp only
-    generalize near.recur = ws
-    generalize s.world = w
-    induction ws generalizing w with
-    | nil => rfl
-    | cons x xs ih =>
-      simp only [List.map_cons, applyActs, List.foldl_cons]
-      have : (applyAct now w (Act.write x)).marks = w.marks := by
-        cases x <;> rfl
-      rw [← this]
-      exact ih _
+  · rw [h1, hws]
+    exact applyActs_writes_marks now ws s.world
 
-/-- non-vacuity: `go B if .s0 is updated` with B guarded by `let me if value in .s1` (false): the share
-is updated at tick 1, the transition is refused at ticks 1 and 2 and taken at tick 3 when the guard
-share is set — the update still counts. -/
+/-- non-vacuity (refusal): `go B if .s0 is updated` with B guarded by `let me if value in .s1` (false):
+the share is updated at tick 1, the transition is refused at ticks 1 and 2 and taken at tick 3 when the
+guard share is set — the update still counts. -/
 example :
     let nd : NeedSrc := ⟨.update, false, 0, .absent, ""⟩
-    let p : Program := [⟨"A", [], [], [], [], [⟨.named "B", [nd]⟩]⟩,
-                        ⟨"B", [⟨false, 1, "value"⟩], [], [], [], []⟩]
+    let p : Program := [⟨"A", none, [], [], [], [], [⟨.named "B", [nd]⟩]⟩,
+                        ⟨"B", none, [⟨false, 1, "value"⟩], [], [], [], []⟩]
     let put0 : Write := .put 0 [("value", .int 1)]
     let put1 : Write := .put 1 [("value", .bool true)]
     (resolve p).toOption.map (fun r =>
@@ -411,6 +423,113 @@ example :
         [([], []), ([put0], []), ([], []), ([put1], []), ([], [])]).2.1)
       = some [(0, true), (0, false), (0, false), (1, true), (1, false)] := by
   decide
+
+/-- non-vacuity (nested frames): over frame `O` holds `A` and `B`, which hand over to each other every
+tick; `O` has `go Z if .s0 is updated in frame O`.  The share is updated at tick 2 (after the reader ran),
+while the framer is shuttling between `A` and `B`.  Entering and leaving the inner frames does not re-arm
+`O`'s mark (set on entry to `O` at tick 0), so at tick 3 the update counts and the framer goes to `Z`. -/
+example :
+    let nd : NeedSrc := ⟨.update, false, 0, .named "O", ""⟩
+    let p : Program := [⟨"O", none, [], [], [], [], [⟨.named "Z", [nd]⟩]⟩,
+                        ⟨"A", some "O", [], [], [], [], [⟨.named "B", []⟩]⟩,
+                        ⟨"B", some "O", [], [], [], [], [⟨.named "A", []⟩]⟩,
+                        ⟨"Z", none, [], [], [], [], []⟩]
+    let put0 : Write := .put 0 [("value", .int 1)]
+    (resolve p).toOption.map (fun r =>
+      (run r [[("value", .int 0)]] [([], []), ([], []), ([], [put0]), ([], []), ([], [])]).2.1)
+      = some [(0, true), (2, true), (1, true), (3, true), (3, false)] := by
+  decide
+
+/-! ### nested frames: which marks a taken transition sets -/
+
+/-- the marker acts of a taken transition, in order: one tract marker per guarding need (transit
+sub-context), then the enact markers of exactly the frames that are ENTERED (`ExEn`), top down; the
+frames of the active outline that stay (the common over frames) run no marker -/
+theorem C20_fire_markers (r : Resolved) (actives : List Nat) (t : Trans) :
+    (fireActs r actives t).filterMap (fun a => match a with | .marker tr m => some (tr, m) | _ => none)
+      = t.needs.map (fun n => (true, n.ref)) ++
+        ((exen actives (outline r.frames t.far) t.far).2.flatMap (fun j => r.enacts.getD j [])).map (fun m => (false, m)) := by
+  unfold fireActs
+  simp only [List.filterMap_append, List.filterMap_map]
+  have h1 : ∀ l : List Need, List.filterMap ((fun a => match a with | Act.marker tr m => some (tr, m) | _ => none) ∘
+      fun n => Act.marker true n.ref) l = l.map (fun n => (true, n.ref)) := by
+    intro l; induction l with
+    | nil => rfl
+    | cons a l ih => simp [ih]
+  have hx : ∀ l : List Nat, List.filterMap (fun a => match a with | Act.marker tr m => some (tr, m) | _ => none)
+      (l.flatMap (exitActs r)) = [] := by
+    intro l; induction l with
+    | nil => rfl
+    | cons i l ih =>
+      simp only [List.flatMap_cons, List.filterMap_append, ih, List.append_nil, exitActs, List.filterMap_map]
+      generalize ((r.frames[i]?.map (·.exit)).getD []) = ws
+      induction ws with
+      | nil => rfl
+      | cons a ws ih2 => simp [ih2]
+  have he : ∀ l : List Nat, List.filterMap (fun a => match a with | Act.marker tr m => some (tr, m) | _ => none)
+      (l.flatMap (enterActs r)) = (l.flatMap (fun j => r.enacts.getD j [])).map (fun m => (false, m)) := by
+    intro l; induction l with
+    | nil => rfl
+    | cons i l ih =>
+      simp only [List.flatMap_cons, List.filterMap_append, ih, List.map_append, enterActs, List.filterMap_map]
+      congr 1
+      have e1 : ∀ ms : List MarkRef, List.filterMap ((fun a => match a with | Act.marker tr m => some (tr, m) | _ => none) ∘
+          Act.marker false) ms = ms.map (fun m => (false, m)) := by
+        intro ms; induction ms with
+        | nil => rfl
+        | cons a ms ih3 => simp [ih3]
+      have e2 : ∀ ws : List Write, List.filterMap ((fun a => match a with | Act.marker tr m => some (tr, m) | _ => none) ∘
+          Act.write) ws = [] := by
+        intro ws; induction ws with
+        | nil => rfl
+        | cons a ws ih3 => simp [ih3]
+      rw [e1, e2]; simp
+  rw [h1, hx, he]
+  simp
+
+/-- **An outer frame's mark is not disturbed by transitions below it.**  A taken transition whose
+entered frames (`ExEn`) carry no enact marker for the mark `m`, and which is not itself guarded by `m`,
+runs no marker act on `m` at all — entering and exiting inner frames leaves the `is updated` /
+`is changed` condition of an over frame as it was armed on entry to that over frame. -/
+theorem C20_outer_mark_undisturbed (r : Resolved) (actives : List Nat) (t : Trans) (m : MarkRef)
+    (henters : ∀ j ∈ (exen actives (outline r.frames t.far) t.far).2, m ∉ r.enacts.getD j [])
+    (hneeds : ∀ n ∈ t.needs, n.ref ≠ m) :
+    ∀ tr, Act.marker tr m ∉ fireActs r actives t := by
+  intro tr hmem
+  unfold fireActs at hmem
+  simp only [List.mem_append, List.mem_map, List.mem_flatMap] at hmem
+  rcases hmem with (⟨n, hn, he⟩ | ⟨j, _, hj⟩) | ⟨j, hj, he⟩
+  · injection he with _ h2; exact hneeds n hn h2
+  · simp [exitActs] at hj
+  · simp only [enterActs, List.mem_append, List.mem_map] at he
+    rcases he with ⟨m', hm', e⟩ | ⟨w, _, e⟩
+    · injection e with _ h2; subst h2; exact henters j hj hm'
+    · cases e
+
+/-- `ExEn` splits both outlines at one position: what is exited and what is entered are the tails, the
+common over frames in front of them are neither exited nor entered — so their entry marks are not re-armed
+by a transition between frames below them -/
+theorem C20_exen_common_prefix (nears fars : List Nat) (far : Nat) :
+    ∃ common, nears = common ++ (exen nears fars far).1 ∧ fars = common ++ (exen nears fars far).2 ∨
+      ((exen nears fars far).1 = [] ∧ (exen nears fars far).2 = []) := by
+  induction nears generalizing fars with
+  | nil => exact ⟨[], Or.inr ⟨by simp [exen], by simp [exen]⟩⟩
+  | cons n ns ih =>
+    cases fars with
+    | nil => exact ⟨[], Or.inr ⟨by simp [exen], by simp [exen]⟩⟩
+    | cons f fs =>
+      by_cases h : n = far ∨ n ≠ f
+      · exact ⟨[], Or.inl ⟨by simp [exen, h], by simp [exen, h]⟩⟩
+      · have hnf : n = f := by
+          by_cases e : n = f
+          · exact e
+          · exact absurd (Or.inr e) h
+        obtain ⟨c, hc⟩ := ih fs
+        rcases hc with ⟨h1, h2⟩ | ⟨h1, h2⟩
+        · refine ⟨n :: c, Or.inl ⟨?_, ?_⟩⟩
+          · simp only [exen, h, if_false, List.cons_append]; rw [← h1]
+          · simp only [exen, h, if_false, List.cons_append]; rw [← h2, hnf]
+        · exact ⟨[], Or.inr ⟨by simp [exen, h, h1], by simp [exen, h, h2]⟩⟩
 
 /-! ### where resolve puts the markers -/
 
@@ -480,38 +599,13 @@ theorem C20_default_marker_key (names : List String) (home : Nat) (n : NeedSrc) 
   subst e
   exact ⟨fi, hf, by simp [srcKey, hb]⟩
 
-/-- the marker acts of a taken transition: first one tract marker per guarding need (transit
-sub-context), then — after the exit acts — the enact markers of the far frame (enter context) -/
-theorem C20_fire_markers (r : Resolved) (near : Frame) (t : Trans) :
-    (fireActs r near t).filterMap (fun a => match a with | .marker tr m => some (tr, m) | _ => none)
-      = t.needs.map (fun n => (true, n.ref)) ++ (r.enacts.getD t.far []).map (fun m => (false, m)) := by
-  unfold fireActs enterActs
-  simp only [List.filterMap_append, List.filterMap_map]
-  have h1 : ∀ l : List Need, List.filterMap ((fun a => match a with | Act.marker tr m => some (tr, m) | _ => none) ∘
-      fun n => Act.marker true n.ref) l = l.map (fun n => (true, n.ref)) := by
-    intro l; induction l with
-    | nil => rfl
-    | cons a l ih => simp [ih]
-  have h2 : ∀ l : List Write, List.filterMap ((fun a => match a with | Act.marker tr m => some (tr, m) | _ => none) ∘
-      Act.write) l = [] := by
-    intro l; induction l with
-    | nil => rfl
-    | cons a l ih => simp [ih]
-  have h3 : ∀ l : List MarkRef, List.filterMap ((fun a => match a with | Act.marker tr m => some (tr, m) | _ => none) ∘
-      Act.marker false) l = l.map (fun m => (false, m)) := by
-    intro l; induction l with
-    | nil => rfl
-    | cons a l ih => simp [ih]
-  rw [h1, h2, h2, h3]
-  simp
-
 /-- non-vacuity / shared `by` marker: two needs in different frames naming the same `by` marker on
 the same share resolve to one Mark key; the `in frame B` clause of the first puts one enact marker
 into `B`, and a second identical request does not add another. -/
 example :
     let nd : NeedSrc := ⟨.update, false, 0, .named "B", "m1"⟩
-    let p : Program := [⟨"A", [], [], [], [], [⟨.named "B", [nd]⟩]⟩,
-                        ⟨"B", [], [], [], [], [⟨.named "A", [nd, { nd with clause := .absent }]⟩]⟩]
+    let p : Program := [⟨"A", none, [], [], [], [], [⟨.named "B", [nd]⟩]⟩,
+                        ⟨"B", none, [], [], [], [], [⟨.named "A", [nd, { nd with clause := .absent }]⟩]⟩]
     (resolve p).toOption.map (fun r => (r.enacts, r.keys))
       = some ([[], [⟨.update, 0, "m1"⟩]], [(0, "m1")]) := by
   decide
